@@ -179,6 +179,48 @@ def run(ck: vlib.Check):
                          {"mode": "threads", "cases": [[m, w] for m, w in tcases[:4]], "stderr": (tp.stderr or "")[-1500:]})
     except _sp.TimeoutExpired:
         ck.violation("threads:timeout", "concurrent decoder calls did not finish within 600 s", {"mode": "threads"})
+    # ---- 2c the same words handed over in the other layouts / item types NumPy can present (stride-2 view, int32 items, negative-stride
+    #         view, uint64 items, big-endian items, float64 items): the binding converts them; the parser must then read exactly the
+    #         supplied words, while the converted copy is alive.  Decoded result must equal that of the C-contiguous uint32 form, or
+    #         be an exception; a sanitizer report (read outside / after release of the words) is the violation.
+    FORMS = {1: "stride2-view", 2: "int32-items", 3: "negative-stride-view", 4: "uint64-items", 5: "big-endian-items", 6: "float64-items"}
+    fcases = [(m, w) for m, w in tcases[:10 if ck.tier == "quick" else 40]]
+    for m, w in list(fcases[:6]):
+        fcases.append((m, w[:ck.rng.randrange(1, len(w))]))            # truncated streams take the error paths
+        w2 = list(w); w2[ck.rng.randrange(len(w2))] = ck.rng.choice([0, 1, 2 ** 31 - 1, 2 ** 32 - 1]); fcases.append((m, w2))
+    fcases += [(15, []), (15, [G.FULL_EVENT])]
+    fin = [(m | (f << 8), w) for m, w in fcases for f in [0] + sorted(FORMS)]
+    fres = G.run_native(exe, fin)
+    per = len(FORMS) + 1
+    form_out = Counter()
+    fviol = {}
+
+    def fv(key, what, rp, n):
+        if key not in fviol or n < fviol[key][0]:
+            fviol[key] = (n, what, rp)
+    for k, (m, w) in enumerate(fcases):
+        ref = fres[k * per]
+        for j, f in enumerate(sorted(FORMS), start=1):
+            got = fres[k * per + j]
+            ck.case(["form", f, m, w])
+            form_out[FORMS[f] + ":" + got[0]] += 1
+            if got[0] in ("san", "timeout", "harness"):
+                kind = norm_kind(got[1]) if got[0] == "san" else got[0]
+                fv(f"binding:{FORMS[f]}:{kind}",
+                             f"{len(w)} words handed to py_read_bes_raw as {FORMS[f]}: native outcome {list(got[:2])} (C-contiguous uint32 form: {ref[0]})",
+                             {"mode": "forms", "mask": m, "form": f, "words": w[:1500], "native": list(got[:2])}, len(w))
+            elif got[0] == "ok" and ref[0] == "ok" and got != ref:
+                fv(f"binding:{FORMS[f]}:reads-other-memory",
+                             f"{len(w)} words handed to py_read_bes_raw as {FORMS[f]} decode differently from the same words as a C-contiguous uint32 array: "
+                             f"the parser read memory that is not the supplied words",
+                             {"mode": "forms", "mask": m, "form": f, "words": w[:1500]}, len(w))
+            elif got[0] == "ok" and ref[0] != "ok":
+                fv(f"binding:{FORMS[f]}:accepted-where-contiguous-form-{ref[0]}",
+                             f"{len(w)} words as {FORMS[f]} give arrays while the C-contiguous form gives {list(ref[:2])}",
+                             {"mode": "forms", "mask": m, "form": f, "words": w[:1500]}, len(w))
+    for key, (n, what, rp) in sorted(fviol.items()):
+        ck.violation(key, what, rp)
+    ck.cov["input_forms"] = {"streams": len(fcases), "forms": FORMS, "outcomes": dict(sorted(form_out.items()))}
     # ---- 3 run everything
     cases = gen_cases(ck)
     cw = [(c["mask"], c["w"]) for c in cases]
@@ -275,7 +317,7 @@ def replay(path):
     if exe is None:
         print("native build failed:", log)
         return 1
-    r = G.run_native(exe, [(rp["mask"], rp["words"])])[0]
+    r = G.run_native(exe, [(rp["mask"] | (rp.get("form", 0) << 8), rp["words"])])[0]
     print("mask", rp["mask"], "words", rp["words"])
     print("native outcome on the current working tree:", r if r[0] != "ok" else "ok (arrays)")
     return 0 if r[0] in ("ok", "exc") else 1
